@@ -2,7 +2,6 @@ package tparsetime
 
 import (
 	"fmt"
-	"strconv"
 	"strings"
 	"time"
 )
@@ -21,23 +20,14 @@ func parseRFC3339Timestamp(timeStr string, timezoneCache map[string]*time.Locati
 	hour := atoi2(t[11:13])
 	min := atoi2(t[14:16])
 	sec := atoi2(t[17:19])
-	var frac float64
+	nsec := 0
 	fracStr, tzStr := splitFractionAndTimezone(t[19:])
-	switch len(fracStr) - 1 {
-	case -1:
-		frac = 0.0
-	case 3:
-		frac = atof3(fracStr)
-	case 6:
-		frac = atof6(fracStr)
-	case 9:
-		frac = atof9(fracStr)
-	default:
-		f, err := strconv.ParseFloat(fracStr, 64)
-		if err != nil {
-			return time.Now(), fmt.Errorf("invalid fraction '%s': %w", fracStr, err)
+	if len(fracStr) > 0 {
+		n, ok := atonsec(fracStr)
+		if !ok {
+			return time.Now(), fmt.Errorf("invalid fraction '%s'", fracStr)
 		}
-		frac = f
+		nsec = n
 	}
 	var location *time.Location
 	if len(tzStr) > 0 {
@@ -61,7 +51,7 @@ func parseRFC3339Timestamp(timeStr string, timezoneCache map[string]*time.Locati
 	} else {
 		location = time.Local
 	}
-	return time.Date(year, time.Month(month), date, hour, min, sec, int(frac*1000000000.0), location), nil
+	return time.Date(year, time.Month(month), date, hour, min, sec, nsec, location), nil
 }
 
 // splitFractionAndTimezone splits e.g. ".123+07:00" to .123 and +07:00
